@@ -463,9 +463,9 @@ def outgoing_catalogue():
     cat = {
         "text": lambda r: TextMessageProtocolEntity(gen.unicode_text(r, 1, 40), to=J(r)),
         "receipt": lambda r: OutgoingReceiptProtocolEntity(gen.msgid(r), J(r), read=r.random() < 0.5, participant=J(r) if r.random() < 0.4 else None),
-        "receipt-multi": lambda r: OutgoingReceiptProtocolEntity([gen.msgid(r) for _ in range(r.randint(2, 5))], J(r), read=True),
+        "receipt-multi": lambda r: OutgoingReceiptProtocolEntity([gen.msgid(r) for _ in range(gen.count(r, 2, 5))], J(r), read=True),
         # (the constructor documents list or tuple; one id may also come wrapped in either)
-        "receipt-multi-tuple": lambda r: OutgoingReceiptProtocolEntity(tuple(gen.msgid(r) for _ in range(r.randint(1, 5))), J(r), read=r.random() < 0.5),
+        "receipt-multi-tuple": lambda r: OutgoingReceiptProtocolEntity(tuple(gen.msgid(r) for _ in range(gen.count(r, 1, 5))), J(r), read=r.random() < 0.5),
         "receipt-single-list": lambda r: OutgoingReceiptProtocolEntity([gen.msgid(r)], J(r), read=r.random() < 0.5),
         "ack": lambda r: OutgoingAckProtocolEntity(gen.msgid(r), r.choice(["receipt", "notification", "message"]), r.choice([None, "read", "picture"]), J(r), participant=J(r) if r.random() < 0.4 else None),
         "presence-available": lambda r: AvailablePresenceProtocolEntity(),
@@ -478,25 +478,25 @@ def outgoing_catalogue():
         "ping": lambda r: PingIqProtocolEntity(to="s.whatsapp.net"),
         "pong": lambda r: PongResultIqProtocolEntity("s.whatsapp.net", gen.msgid(r)),
         "groups-list": lambda r: G.ListGroupsIqProtocolEntity(),
-        "groups-create": lambda r: G.CreateGroupsIqProtocolEntity(gen.unicode_text(r, 1, 20), participants=[J(r) for _ in range(r.randint(1, 4))]),
+        "groups-create": lambda r: G.CreateGroupsIqProtocolEntity(gen.unicode_text(r, 1, 20), participants=[J(r) for _ in range(gen.count(r, 1, 4))]),
         "groups-info": lambda r: G.InfoGroupsIqProtocolEntity(gj(r)),
-        "groups-leave": lambda r: G.LeaveGroupsIqProtocolEntity([gj(r) for _ in range(r.randint(1, 3))]),
-        "groups-add": lambda r: G.AddParticipantsIqProtocolEntity(gj(r), [J(r) for _ in range(r.randint(1, 4))]),
-        "groups-remove": lambda r: G.RemoveParticipantsIqProtocolEntity(gj(r), [J(r) for _ in range(r.randint(1, 4))]),
-        "groups-promote": lambda r: G.PromoteParticipantsIqProtocolEntity(gj(r), [J(r) for _ in range(r.randint(1, 4))]),
-        "groups-demote": lambda r: G.DemoteParticipantsIqProtocolEntity(gj(r), [J(r) for _ in range(r.randint(1, 4))]),
+        "groups-leave": lambda r: G.LeaveGroupsIqProtocolEntity([gj(r) for _ in range(gen.count(r, 1, 3))]),
+        "groups-add": lambda r: G.AddParticipantsIqProtocolEntity(gj(r), [J(r) for _ in range(gen.count(r, 1, 4))]),
+        "groups-remove": lambda r: G.RemoveParticipantsIqProtocolEntity(gj(r), [J(r) for _ in range(gen.count(r, 1, 4))]),
+        "groups-promote": lambda r: G.PromoteParticipantsIqProtocolEntity(gj(r), [J(r) for _ in range(gen.count(r, 1, 4))]),
+        "groups-demote": lambda r: G.DemoteParticipantsIqProtocolEntity(gj(r), [J(r) for _ in range(gen.count(r, 1, 4))]),
         "groups-subject": lambda r: G.SubjectGroupsIqProtocolEntity(gj(r), gen.unicode_text(r, 1, 20)),
         "picture-get": lambda r: P.GetPictureIqProtocolEntity(J(r), preview=r.random() < 0.5),
         "picture-set": lambda r: P.SetPictureIqProtocolEntity(J(r), gen.blob(r, 40), gen.blob(r, 200)),
         "status-set": lambda r: P.SetStatusIqProtocolEntity(gen.unicode_text(r, 1, 30).encode("utf-8")),
-        "statuses-get": lambda r: P.GetStatusesIqProtocolEntity([J(r) for _ in range(r.randint(1, 3))]),
+        "statuses-get": lambda r: P.GetStatusesIqProtocolEntity([J(r) for _ in range(gen.count(r, 1, 3))]),
         "unregister": lambda r: P.UnregisterIqProtocolEntity(),
         "privacy-get": lambda r: PR.GetPrivacyIqProtocolEntity() if hasattr(PR, "GetPrivacyIqProtocolEntity") else None,
-        "contacts-sync": lambda r: GetSyncIqProtocolEntity(["+" + gen.phone(r) for _ in range(r.randint(1, 4))]),
+        "contacts-sync": lambda r: GetSyncIqProtocolEntity(["+" + gen.phone(r) for _ in range(gen.count(r, 1, 4))]),
         "clean-dirty": lambda r: CleanIqProtocolEntity(r.choice(["groups", "account"]), "s.whatsapp.net"),
-        "keys-get": lambda r: AX.GetKeysIqProtocolEntity([J(r) for _ in range(r.randint(1, 3))]),
+        "keys-get": lambda r: AX.GetKeysIqProtocolEntity([J(r) for _ in range(gen.count(r, 1, 3))]),
         "keys-set": lambda r: AX.SetKeysIqProtocolEntity(gen.blob(r, 32), (gen.blob(r, 3), gen.blob(r, 32), gen.blob(r, 64)),
-                                                         {gen.blob(r, 3): gen.blob(r, 32) for _ in range(r.randint(1, 5))}, 5, gen.blob(r, 4)),
+                                                         {gen.blob(r, 3): gen.blob(r, 32) for _ in range(gen.count(r, 1, 5))}, 5, gen.blob(r, 4)),
         "retry-receipt-out": lambda r: AX.RetryOutgoingReceiptProtocolEntity(gen.msgid(r), J(r), r.randint(1, 2 ** 31 - 1), str(r.randint(1, 2 ** 31 - 1)), count=r.randint(1, 4),
                                                                              participant=J(r) if r.random() < 0.4 else None),
         "enc-message-out": lambda r: AX.EncryptedMessageProtocolEntity([AX.EncProtocolEntity(r.choice(["pkmsg", "msg"]), 2, gen.blob(r, 80), r.choice([None, "image"]),
